@@ -1,7 +1,10 @@
 (* C08 - Automatic regeneration equals a fresh configure, and converges.
    Only statements; the model is theories/State/Regen.v, the proofs theories/State/RegenProofs.v.
    tree / find / seen are the abstract directory tree and search (property C11); fx74 and fx75 select the code
-   before (false) and after (true) the repairs 491a34f and df3cfcf; the main theorems are about the code as it is now. *)
+   before (false) and after (true) the repairs 491a34f and df3cfcf; fxc selects find_check_cache before (false) and
+   after (true) the repair F1 (a cache file strictly newer than the build file is not trusted: full regeneration).
+   The main theorems hold for BOTH values of fxc (the check detects which one the tree under test contains and ties
+   that one); F1 only adds a case in which the regeneration runs. *)
 From Coq Require Import NArith List Bool.
 From BFG Require Import State.Regen State.RegenProofs.
 Import ListNotations.
@@ -10,48 +13,55 @@ Local Open Scope N_scope.
 (* Skip only when the fresh result equals the recorded one: inputs, outputs, what every call returns, the dist set, the
    find cache.  Domain: every find call is cached (cache=False is documented as untracked).  The watched directories are
    NOT covered - see C08_skip_dirs_refuted. *)
-Theorem C08_skip_sound : forall tree find seen (w0 w : world tree) s tl,
+Theorem C08_skip_sound : forall tree find seen fxc (w0 w : world tree) s tl,
   save (fresh tree find seen true w0) = Some s ->
   (inputs_newer tree w s = false -> w_conf w = w_conf w0) ->
   forallb c_cached (cf_calls (w_conf w)) = true ->
-  lazy tree find seen true w (Some s) = Skip tl ->
+  lazy tree find seen true fxc w (Some s) = Skip tl ->
   req (fresh tree find seen true w) (fresh tree find seen true w0).
 Proof. exact skip_sound. Qed.
 Print Assumptions C08_skip_sound.
 
 (* a skipped regeneration leaves .bfg_find_deps as it was although the set of walked directories changed *)
-Theorem C08_skip_dirs_refuted :
+Theorem C08_skip_dirs_refuted : forall fxc,
   exists (tree : Type) find seen (w0 w : world tree) s tl,
     save (fresh tree find seen true w0) = Some s /\
     (inputs_newer tree w s = false -> w_conf w = w_conf w0) /\
     forallb c_cached (cf_calls (w_conf w)) = true /\
-    lazy tree find seen true w (Some s) = Skip tl /\
+    lazy tree find seen true fxc w (Some s) = Skip tl /\
     ~ set_eq (r_dirs (fresh tree find seen true w)) (r_dirs (fresh tree find seen true w0)).
 Proof. exact skip_dirs_refuted. Qed.
 Print Assumptions C08_skip_dirs_refuted.
 
 (* when regeneration is not skipped its result is that of a fresh configure (the dist list as a set), including the
    run served from the cache that find_check_cache pre-filled *)
-Theorem C08_noskip_eq_fresh : forall tree find seen (w : world tree) sv r,
-  coherent tree w sv -> lazy tree find seen true w sv = Ran r -> req_full r (fresh tree find seen true w).
+Theorem C08_noskip_eq_fresh : forall tree find seen fxc (w : world tree) sv r,
+  coherent tree w sv -> lazy tree find seen true fxc w sv = Ran r -> req_full r (fresh tree find seen true w).
 Proof. exact noskip_eq_fresh. Qed.
 Print Assumptions C08_noskip_eq_fresh.
 
 (* before 491a34f: files matched by extra dropped out of the dist set *)
-Theorem C08_noskip_eq_fresh_refuted :
+Theorem C08_noskip_eq_fresh_refuted : forall fxc,
   exists (tree : Type) find seen (w : world tree) sv r,
-    coherent tree w sv /\ lazy tree find seen false w sv = Ran r /\
+    coherent tree w sv /\ lazy tree find seen false fxc w sv = Ran r /\
     ~ set_eq (r_dist r) (r_dist (fresh tree find seen false w)).
 Proof. exact noskip_eq_fresh_refuted. Qed.
 Print Assumptions C08_noskip_eq_fresh_refuted.
 
 (* now: the dist list is the same set but not the same list (cache hits register extra files first) *)
-Theorem C08_noskip_dist_order_refuted :
+Theorem C08_noskip_dist_order_refuted : forall fxc,
   exists (tree : Type) find seen (w : world tree) sv r,
-    coherent tree w sv /\ lazy tree find seen true w sv = Ran r /\
+    coherent tree w sv /\ lazy tree find seen true fxc w sv = Ran r /\
     r_dist r <> r_dist (fresh tree find seen true w).
 Proof. exact noskip_dist_order_refuted. Qed.
 Print Assumptions C08_noskip_dist_order_refuted.
+
+(* F1: a cache file strictly newer than the first regeneration output makes the lazy regeneration a fresh configure,
+   exactly (no pre-filled cache) *)
+Theorem C08_newer_cache_reruns : forall tree find seen (w : world tree) s,
+  cache_newer tree w s = true -> lazy tree find seen true true w (Some s) = Ran (fresh tree find seen true w).
+Proof. exact newer_cache_reruns. Qed.
+Print Assumptions C08_newer_cache_reruns.
 
 (* every edit that changes what a configure computes makes the target that carries the regenerate recipe out of date *)
 Theorem C08_trigger_complete : forall tree find seen (w0 w : world tree) r0,
@@ -89,20 +99,30 @@ Theorem C08_converges : forall tree fx75 (w : world tree) o r now,
 Proof. exact converges. Qed.
 Print Assumptions C08_converges.
 
-Theorem C08_converges_ran : forall tree find seen fx75 (w : world tree) sv r now,
-  lazy tree find seen true w sv = Ran r ->
+Theorem C08_converges_ran : forall tree find seen fxc fx75 (w : world tree) sv r now,
+  lazy tree find seen true fxc w sv = Ran r ->
   (forall p t, lookup p (w_mt w) = Some t -> t < now) ->
   (forall d, In d (step_deps fx75 r) -> exists_b tree w d = true) ->
   regen_due tree fx75 r (after_step tree w (Ran r) (primary r) now) = false.
 Proof. exact converges_ran. Qed.
 Print Assumptions C08_converges_ran.
 
+(* F1 does not disturb convergence: after the step (Ran: the cache is saved before the build file is written, both at
+   this step's clock value; Skip: the outputs are touched) the cache is not newer than the first output, so the next
+   find_check_cache trusts it.  Strict comparison: equal timestamps count as not newer. *)
+Theorem C08_cache_trusted_after_step : forall tree (w : world tree) o prim now s,
+  (forall p t, lookup p (w_mt w) = Some t -> t < now) ->
+  In (first_output s) (written o) ->
+  cache_newer tree (after_step tree w o prim now) s = false.
+Proof. exact cache_trusted_after_step. Qed.
+Print Assumptions C08_cache_trusted_after_step.
+
 (* the existence proviso is necessary: a watched directory that was removed without changing any result is skipped
    over, stays in .bfg_find_deps, and the step is due again after every run *)
-Theorem C08_converges_skip_missing_dir_refuted :
+Theorem C08_converges_skip_missing_dir_refuted : forall fxc,
   exists (tree : Type) find seen (w0 w : world tree) s tl now,
     save (fresh tree find seen true w0) = Some s /\
-    lazy tree find seen true w (Some s) = Skip tl /\
+    lazy tree find seen true fxc w (Some s) = Skip tl /\
     (forall p t, lookup p (w_mt w) = Some t -> t < now) /\
     let r0 := fresh tree find seen true w0 in
     regen_due tree true r0 (after_step tree w (Skip tl) (primary r0) now) = true.
@@ -111,29 +131,42 @@ Print Assumptions C08_converges_skip_missing_dir_refuted.
 
 (* histories: after every sequence of edits, each followed by a make, the build files on disk are those of a fresh
    configure of the present tree (edit_ok: the clock and directory-mtime assumptions, every call cached, and no skip
-   that coincides with a change of the walked directories) *)
-Theorem C08_history : forall tree find seen (s : state tree), reach tree find seen s -> good tree find seen s.
+   that coincides with a change of the walked directories); the mtimes of the world after an edit are arbitrary, in
+   particular the cache file may be newer than the build file *)
+Theorem C08_history : forall tree find seen fxc (s : state tree), reach tree find seen fxc s -> good tree find seen s.
 Proof. exact history. Qed.
 Print Assumptions C08_history.
 
 (* non-vacuity: a world in which the pre-filled run really happens and serves a changed result with an extra file *)
-Example C08_noskip_nonvacuous :
+Example C08_noskip_nonvacuous : forall fxc,
   exists r, coherent bool (Wit.mk true Wit.mtA []) Wit.svA /\
-            lazy bool Wit.findA Wit.seenA true (Wit.mk true Wit.mtA []) Wit.svA = Ran r /\
+            lazy bool Wit.findA Wit.seenA true fxc (Wit.mk true Wit.mtA []) Wit.svA = Ran r /\
             r_rets r = [[10; 12]] /\ In 11 (r_dist r).
 Proof. exact noskip_nonvacuous. Qed.
 
+(* non-vacuity of F1: the unchanged world is skipped with cache and build file at equal times, skipped by the old code
+   with a newer cache, regenerated by the repaired code with a newer cache *)
+Example C08_newer_cache_nonvacuous :
+  let w0 := Wit.mk false Wit.mtA [] in
+  let sv := save (fresh bool Wit.findA Wit.seenA true w0) in
+  let newer := Wit.mk false ((2, 11) :: Wit.mtA) [] in
+  let equal := Wit.mk false ((2, 10) :: Wit.mtA) [] in
+  (exists tl, lazy bool Wit.findA Wit.seenA true true equal sv = Skip tl) /\
+  (exists tl, lazy bool Wit.findA Wit.seenA true false newer sv = Skip tl) /\
+  lazy bool Wit.findA Wit.seenA true true newer sv = Ran (fresh bool Wit.findA Wit.seenA true newer).
+Proof. exact newer_cache_nonvacuous. Qed.
+
 (* non-vacuity of C08_history: a two-step history (file added, then nothing) is reachable *)
-Example C08_history_nonvacuous :
-  exists s, reach bool Wit.findA Wit.seenA s /\ r_rets (s_emit bool s) = [[10; 11 - 1 + 2]].
+Example C08_history_nonvacuous : forall fxc,
+  exists s, reach bool Wit.findA Wit.seenA fxc s /\ r_rets (s_emit bool s) = [[10; 11 - 1 + 2]].
 Proof.
-  eexists. split.
-  - eapply (reach_step bool Wit.findA Wit.seenA _ (Wit.mk true Wit.mtA []) 100).
-    + apply (reach_init bool Wit.findA Wit.seenA (Wit.mk false Wit.mtA [])). reflexivity.
+  intros fxc. eexists. split.
+  - eapply (reach_step bool Wit.findA Wit.seenA fxc _ (Wit.mk true Wit.mtA []) 100).
+    + apply (reach_init bool Wit.findA Wit.seenA fxc (Wit.mk false Wit.mtA [])). reflexivity.
     + unfold edit_ok. cbn [s_w s_sv s_emit]. split; [reflexivity|]. split; [reflexivity|]. split; [reflexivity|]. split.
       * intros f H. exfalso. specialize (H 5 (or_introl eq_refl)).
         destruct H as (tg & td & H1 & H2 & H3). vm_compute in H1, H2. inversion H1; inversion H2; subst.
         vm_compute in H3. apply H3. reflexivity.
-      * intros tl H. vm_compute in H. discriminate.
-  - vm_compute. reflexivity.
+      * intros tl H. destruct fxc; vm_compute in H; discriminate.
+  - destruct fxc; vm_compute; reflexivity.
 Qed.
